@@ -1072,6 +1072,9 @@ def affixes(run, m, F, E, L):
                             und.append('returns false with |x| <= size after %d calls of the comparison primitive: not analysed' % len(cm))
                         elif not good_cmp(s3) and len(cm) == 1 and not wrong_cmp(s3):
                             und.append('returns false with |x| <= size after a comparison whose range is not decided to be exactly the |x| units')
+                        elif isinstance(v, IntV) and v.lin.t and s3.find_model([v.lin, s, nlen], lambda vv: True) is None:
+                            # (no model of this path in which every recorded comparison has its outcome: not a real execution)
+                            und.append('a false path with |x| <= size that has no model consistent with its comparisons')
                         elif not (good_cmp(s3) and s3.flags.get('cmpres') == 'ne' and len(cm) == 1):
                             probs.append('returns false although |x| <= size, without a failed comparison of exactly |x| units at offset %s' %
                                          ('0' if which == 'starts_with' else 'size - |x|'))
